@@ -6,10 +6,34 @@ ROOT = os.path.dirname(os.path.dirname(os.path.abspath(__file__)))
 TECH = "contract-based deductive verification: //@ contracts on the real functions, self-built VC generator (gvc: go/packages + go/ast + go/types symbolic execution, callees by contract, loop invariants), obligations discharged by z3 5.1.0 / z3 4.8.12 / cvc5 1.0.3"
 
 CLAIMED = {
+ "C01": dict(
+   text="Proof, for all plaintexts/associated data/lengths, of byte-exact wire-format postconditions (prefix || IV || standard ciphertext || tag) on the in-tree AEAD code under contract, of Decrypt's dual postcondition, and of the round trip Decrypt(Encrypt(p,ad),ad)==p as a two-call lemma over those contracts. The functions under contract are listed in the evidence file (functions_under_contract).",
+   note="Relative to trusted contracts of crypto/cipher (AEAD.Seal/Open, Block, Stream/CTR), crypto/hmac, hash.Hash, crypto/rand, encoding/binary, bytes in specs/stdlib.gvc: the Go implementations of AES-GCM, AES, CTR, HMAC are assumed to be the standard algorithms and Open(Seal(n,p,a),n,a)==p. AEAD key types without contracts in this snapshot are listed in DESIGN.md section 10 (coverage table) and are NOT covered.",
+   ref="DESIGN.md section 5 C01"),
+ "C02": dict(
+   text="Proof that Decrypt of every AEAD under contract returns nil error iff (length check, prefix equality, full-tag authentication predicate) and returns no plaintext otherwise, and that no index, slice, make, nil-dereference or type-assertion in Encrypt/Decrypt can panic for any input (nopanic obligations with no precondition on the input bytes).",
+   note="Unforgeability itself is a cryptographic assumption; 'did not produce' is reduced to 'authentication predicate of the trusted library / full-tag comparison is false'. Panics inside library callees are outside. Coverage limited to the functions listed in the evidence.",
+   ref="DESIGN.md section 5 C02"),
+ "C04": dict(
+   text="Proof that the in-tree HMAC wrapper computes HMAC(key, concatenation of the inputs) truncated to the leading tagSize bytes and verifies exactly by full equality, and that parameter validation accepts exactly the documented sizes; digest-size and hash-function tables match the documented values.",
+   note="crypto/hmac and hash.Hash are trusted (ghost-state contracts in specs/stdlib.gvc); ComputeMAC/VerifyMAC are proved for the argument counts used in the tree (1 and 3 parts), which is a call-site obligation for every caller. AES-CMAC and the MAC factories: see evidence for what is covered in this snapshot.",
+   ref="DESIGN.md section 5 C04"),
  "C10": dict(
    text="Proof (for all inputs, no bound) that every scalar routine of internal/signature/mldsa/algebra.go equals the FIPS 204 algorithm transcribed in specs/fips204.gvc on all of Z_q: reduceOnce, add, sub, neg, mul (Barrett), power2Round, scalePower2, divBy2Gamma2, decompose, highBits, lowBits, makeHint, useHint, centeredAbs, centeredMax. Obligations are generated from the current source on every run.",
    note="Trusted: crypto/subtle.ConstantTime{Select,LessOrEq,Eq} contracts (specs/stdlib.gvc, incl. their documented operand ranges as call-site obligations); the transcription of FIPS 204 Alg. 35-40 in specs/fips204.gvc; gvc and the solvers. Not covered: SHAKE, sampling, NTT as polynomial evaluation, signing/verification control flow (see DESIGN.md section 5-C10 and the evidence file).",
    ref="DESIGN.md section 5 C10"),
+ "C11": dict(
+   text="Representation invariant (non-nil entries, pairwise distinct IDs all recorded as unavailable, no Unknown status, at most one primary which is Enabled) proved preserved by SetPrimary, Enable, Disable, Delete and newRandomKeyID with whole-view postconditions (every entry pointer, and the changed field of every entry, is specified), error <=> the documented condition, and error ==> unchanged; hence the invariant holds after any history of these operations by induction.",
+   note="Add/AddKey/AddNewKeyFromParameters and Handle()/NewManagerFromHandle depend on registry/key-generation callees; see the evidence for which of them are under contract in this snapshot. slices.IndexFunc / slices.Delete are modelled with their documented semantics inside gvc (trusted). Termination of newRandomKeyID is probabilistic and not proved.",
+   ref="DESIGN.md section 5 C11"),
+ "C19": dict(
+   text="Frame obligations: for every function under contract with `assigns`, every pre-existing heap location (every base, every index incl. spare capacity, every field of every pre-existing object) outside the assigns clause is proved unchanged at every return; `fresh` obligations: results are allocated during the call. Together: no write into caller buffers and no sharing, for the functions listed in the evidence.",
+   note="Covers the functions under contract only (listed in the evidence); library functions are trusted to write only what their contracts' assigns clauses say.",
+   ref="DESIGN.md section 5 C19"),
+ "C20": dict(
+   text="Provenance proof with a ghost model of crypto/rand: the IV/nonce field of each ciphertext produced by a function under contract equals, byte for byte and in full length, one whole draw made during that call (draw counter advanced exactly as specified), and key IDs are the big-endian value of a whole 4-byte draw that was not in use.",
+   note="The statistical quality of crypto/rand (independent uniform draws) is the stated assumption; no sampling is done. Covers the functions listed in the evidence.",
+   ref="DESIGN.md section 5 C20"),
 }
 
 PENDING_REASON = "no obligations claimed yet: the functions this property depends on are not under contract in this snapshot of the engine (work in progress, see DESIGN.md section 10)"
